@@ -794,6 +794,11 @@ class NetworkGraph(AbstractBaseIR):
                         args[w_str] = {'vtype': 'constant', 'value': w_1d, 'dtype': 'float', 'shape': w_1d.shape}
                         eqs.append(f"{t_str} = {w_str} * {s_str}")
                     else:
+                        if weight.shape[0] == 1:
+                            # single target unit: the target variable is a scalar at runtime, so the product has to
+                            # be a scalar as well ((1, n) @ (n,) is a (1,)-array that cannot be assigned to it)
+                            w_1d = weight.squeeze(axis=0)
+                            args[w_str] = {'vtype': 'constant', 'value': w_1d, 'dtype': 'float', 'shape': w_1d.shape}
                         eqs.append(f"{t_str} = matvec({w_str}, {s_str})")
                 else:
                     # case 0b / 0c: matrix coupling with custom edge equations
